@@ -441,7 +441,7 @@ Proof.
   intros alg k s e o s' outs b Hs [Hnew Hacc] Hdst Hhop Hdel Hal Hnf.
   destruct Hacc as [[-> Hloc] | [from ->]]; cbn [scf_step] in Hs; rewrite Hnew in Hs.
   - apply (scf_accept_holds alg k o s b true true s' outs (or_now o) []); auto. rewrite Hloc. reflexivity.
-  - apply (scf_accept_holds alg k o s b false false s' outs (or_now o) []); auto.
+  - apply (scf_accept_holds alg k o s b false true s' outs (or_now o) []); auto.
 Qed.
 
 (* ---------- histories ---------- *)
